@@ -66,6 +66,7 @@ type c12Add struct {
 	Expected  any
 	Arrival   int // adapter arrival number when stored, 0 = not stored
 	Task      int // submitting task
+	Foreign   bool // a well-formed entry another process wrote into the backend (framed by JSON white space)
 	NoID      bool // submitted without an id on a worker that has an id generator
 	GenMissing bool // ... and the generator was not called by the submitting task during the Add
 }
@@ -369,6 +370,37 @@ func c12Run[T any](seed uint64, tier string, gen func(r *simrt.Rand) T) (*Episod
 					for k := simrt.Choose(4); k > 0; k-- {
 						simrt.YieldAlways()
 					}
+					if kind >= qkDist && r.Chance(25) {
+						// (distributed kinds only: an entry that appears in a persistent backend behind
+						// the worker's back is not announced to it)
+						// not corrupted at all: what another process (another language's client, a
+						// json.Encoder with its trailing newline, a pretty printer) stores for the
+						// same job - JSON white space around the object changes nothing
+						v := gen(r)
+						id := fmt.Sprintf("ws%d", i)
+						if exp, enc := expectedOf(v); enc {
+							raw, _ := json.Marshal(c12Wire[T]{ID: id, Status: "Queued", Data: v})
+							var framed []byte
+							switch r.Intn(4) {
+							case 0:
+								framed = append(append([]byte(nil), raw...), '\n')
+							case 1:
+								framed = append([]byte(" "), raw...)
+							case 2:
+								framed = append(append([]byte("\r\n"), raw...), '\r', '\n')
+							default:
+								framed, _ = json.MarshalIndent(c12Wire[T]{ID: id, Status: "Queued", Data: v}, "", "\t")
+							}
+							e := adEntry{Bytes: framed, Sub: -1, Prio: pick(r, prioVals)}
+							at := wd.rec.stamp()
+							ad.hb()
+							ad.inject(simrt.Choose(len(ad.pending)+1), e)
+							ad.hb()
+							ad.notify()
+							cw.adds = append(cw.adds, c12Add{ID: id, Inv: at, Ret: wd.rec.stamp(), OK: true, Encodable: true, Expected: exp, Task: simrt.CurID(), Foreign: true})
+							continue
+						}
+					}
 					valid, _ := json.Marshal(c12Wire[T]{ID: fmt.Sprintf("inj%d", i), Status: "Queued", Data: gen(r)})
 					e, _ := c12Corrupt(r, valid)
 					if r.Chance(20) {
@@ -519,7 +551,7 @@ func c12Judge[T any](ep *Episode, cw *c12World) {
 		}
 		k := 0
 		for _, s := range cw.seen {
-			if byID[s.ID] == nil {
+			if byID[s.ID] == nil || byID[s.ID].Foreign {
 				continue
 			}
 			if k < len(order) && order[k] != s.ID {
